@@ -46,7 +46,9 @@ fn graph_case(item: u64, rng: &mut Rng, acc: &mut Acc, quick: bool) {
     let d_half = su.g.d as f64 / 2.0;
     for ord in &orders {
         for _ in 0..per_sector {
-            let mode = point_modes(rng, quick);
+            // one point in eight: xi below the f64 epsilon (1e-17 ... 5e-324); with a large omega the
+            // kappa stays representable and the sector formula is checked there too
+            let mode = if rng.below(8) == 0 { XiMode::Tiny } else { point_modes(rng, quick) };
             let Some(x) = gen::xpoint(rng, &su.sec, su.dim, mode, Some(ord), false) else {
                 acc.count("sector_unreachable_in_f64");
                 continue;
